@@ -105,7 +105,8 @@ def read_interactions(path, comments="#", directed=False, delimiter=None,
     ids = None
     lines = (line.decode(encoding) for line in path)
     if keys:
-        ids = read_ids(path.name, delimiter=delimiter, timestamptype=timestamptype, comments=comments, encoding=encoding)
+        ids = read_ids(path.name, delimiter=delimiter, timestamptype=timestamptype, comments=comments, encoding=encoding,
+                       interactions=True)
 
     return parse_interactions(lines, comments=comments, directed=directed, delimiter=delimiter, nodetype=nodetype,
                               timestamptype=timestamptype, keys=ids)
@@ -296,7 +297,7 @@ def read_snapshots(path, comments="#", directed=False, delimiter=None,
                            timestamptype=timestamptype, keys=ids)
 
 
-def read_ids(path, delimiter=None, timestamptype=None, comments="#", encoding='utf-8'):
+def read_ids(path, delimiter=None, timestamptype=None, comments="#", encoding='utf-8', interactions=False):
     """Rank of every timestamp of the rows that the parsers read (comments, blank and malformed rows are skipped)."""
     ids = {}
     with open(path, encoding=encoding) as f:
@@ -305,13 +306,11 @@ def read_ids(path, delimiter=None, timestamptype=None, comments="#", encoding='u
             if p >= 0:
                 line = line[:p]
             s = line.strip().split(delimiter)
-            if len(s) < 3:
-                continue
-            if s[2] in ['+', '-']:
-                # interaction list row: u v op t
+            if interactions:
+                # interaction list row: u v op t (exactly four fields, as in parse_interactions)
                 if len(s) == 4:
                     ids[timestamptype(s[3])] = None
-            else:
+            elif len(s) >= 3:
                 # snapshot row: u v t [e]
                 ids[timestamptype(s[2])] = None
                 if len(s) > 3:
